@@ -1674,6 +1674,9 @@ func (m *Machine) recoverToErr(handler *handler, r recoveryData) {
 	// dont double handle an exception (no nesting)
 	mut := t.Mutation
 	if mut.IsCalled(iException) {
+		// the panicked handler loop is gone, restart it
+		go m.handlerLoop()
+
 		return
 	}
 
